@@ -64,7 +64,7 @@ def gen_call(lib, k, call):
         actual.append(call["obj"])
     for p in f["params"][:v["nparams"]]:
         kd, n = p["kind"], p["name"]
-        T = T_inst if p.get("T") == "ArgType" else p.get("T")
+        T = ir.tsub(p.get("T"), f, T_inst)
         vn = "%s_%d" % (n, k)
         if kd == "val":
             actual.append(lit(args[n], T))
@@ -122,6 +122,8 @@ def gen_call(lib, k, call):
         else:
             raise ValueError(kd)
     r = f["ret"]
+    if "T" in r:
+        r = dict(r, T=ir.tsub(r["T"], f, T_inst))
     callexpr = "%s(%s)" % (v["c_name"], ", ".join(actual))
     if f.get("ctor"):
         L.append("    %s%s *rvp = %s(%s);" % (lib["c_prefix"], f["cls"], v["c_name"], ", ".join(actual + ["&" + call["obj"] + "_buf"])))
@@ -137,7 +139,9 @@ def gen_call(lib, k, call):
         L.append('    printf("OUT %d"); vf_log_b("associated", rvp == &%s_buf && %s_buf.addr != NULL); printf("\\n"); fflush(stdout);' % (k, ro, ro))
         L.append("  }")
         return L
-    if r["kind"] in ("val", "ptr_scalar"):       # +deref(scalar): the C wrapper dereferences (pointers.yaml returnIntScalar)
+    if r["kind"] == "ptr_scalar" and r.get("deref", "scalar") != "scalar":
+        L.append("    %s vfret = *%s;" % (ir.TYPES[r["T"]]["c"], callexpr))       # pointer result kept by the C API
+    elif r["kind"] in ("val", "ptr_scalar"):       # +deref(scalar): the C wrapper dereferences (pointers.yaml returnIntScalar)
         L.append("    %s vfret = %s;" % (ir.TYPES[r["T"]]["c"], callexpr))
     elif r["kind"] in ("cstr", "cstr_len", "str_cref", "str_cref_len"):
         L.append("    const char *vfret = %s;" % callexpr)
